@@ -144,7 +144,7 @@ class C16(Prop):
                   'a summary must be printed and the verdict must be failed.')
     level_note = ('A bad test is recognised by its outcome kind (validated table); its result is recorded at the latest '
                   'when it ends, so the oracle only forbids starts of *later* tests. Tear-down failures are not triggers.')
-    rule = ('Hypothesis worlds (0..4 layers, tests 75% good, bad ones of 10 kinds), options -x always, --repeat 1..3, '
+    rule = ('Hypothesis worlds (0..4 layers, tests 75% good, bad ones of 10 kinds, failing layer setUp / tearDown hooks), options -x always, --repeat 1..3, '
             '--shuffle, --buffer; procs part adds NotImplementedError tear-downs and -j2. Non-trivial = a bad test '
             'started and fewer tests started than were selected (something was really cut off).')
     assumptions = ('for resumed / -j runs only the per-process clause is checked',)
